@@ -437,11 +437,11 @@ theorem slide_extract_prefix (cells : Array Cell) (r src n : Nat) (hr : r ≤ ce
     simp [slide_below n cells r src i hi, slide_size]
     omega
 
-theorem optimize_retained_prefix_unchanged {s s' : Store} {roots m : List Nat}
-    (h : Store.optimize s roots = .ok (s', m)) (hr : s.retention ≤ s.cells.size) (hvc : ValueLinksClosed s) :
+theorem optimizeBody_retained_prefix_unchanged {s s' : Store} {roots m : List Nat}
+    (h : Store.optimizeBody s roots = .ok (s', m)) (hr : s.retention ≤ s.cells.size) (hvc : ValueLinksClosed s) :
     s'.retention = s.retention ∧ s'.start = s.start ∧ s.retention ≤ s'.cells.size ∧
       ∀ i, i < s.retention → s'.cells[i]? = s.cells[i]? := by
-  unfold Store.optimize at h
+  unfold Store.optimizeBody at h
   simp only [bind_eq_ok] at h
   obtain ⟨s1, h1, s2, h2, s3, h3, s4, h4, s5, h5, h6⟩ := h
   have e1 := indexSymbols_ext s.retention _ _ _ _ h1
@@ -516,10 +516,10 @@ theorem remapRoots_retained (s : Store) (ls le : Nat) : ∀ (roots ms : List Nat
 
 
 /-- roots inside the retained prefix are reported at the same address -/
-theorem optimize_retained_roots_fixed {s s' : Store} {roots m : List Nat}
-    (h : Store.optimize s roots = .ok (s', m)) :
+theorem optimizeBody_retained_roots_fixed {s s' : Store} {roots m : List Nat}
+    (h : Store.optimizeBody s roots = .ok (s', m)) :
     m.length = roots.length ∧ ∀ (k r : Nat), roots[k]? = some r → r < s.retention → m[k]? = some r := by
-  unfold Store.optimize at h
+  unfold Store.optimizeBody at h
   simp only [bind_eq_ok] at h
   obtain ⟨s1, h1, s2, h2, s3, h3, s4, h4, s5, h5, h6⟩ := h
   have e1 := indexSymbols_ext 0 _ _ _ _ h1
@@ -549,5 +549,29 @@ theorem optimize_retained_roots_fixed {s s' : Store} {roots m : List Nat}
     cases reg <;> cases val <;> cases fr <;> simp only [] at hm <;>
       (have := remapRoots_retained _ _ _ _ _ hm
        simpa [hret] using this)
+
+theorem optimize_ok {s s' : Store} {roots m : List Nat} (h : Store.optimize s roots = .ok (s', m)) :
+    s.retention ≤ s.cells.size ∧ Store.optimizeBody s roots = .ok (s', m) := by
+  unfold Store.optimize at h
+  split at h
+  · simp at h
+  · rename_i hgt
+    exact ⟨by simpa [Store.cursor] using Nat.le_of_not_gt hgt, h⟩
+
+/-- a retention count beyond the data is refused before anything is touched -/
+theorem optimize_retention_beyond (s : Store) (roots : List Nat) (h : s.retention > s.cells.size) :
+    Store.optimize s roots = .err .data := by
+  simp [Store.optimize, Store.cursor, h]
+
+theorem optimize_retained_prefix_unchanged {s s' : Store} {roots m : List Nat}
+    (h : Store.optimize s roots = .ok (s', m)) (hvc : ValueLinksClosed s) :
+    s'.retention = s.retention ∧ s'.start = s.start ∧ s.retention ≤ s'.cells.size ∧
+      ∀ i, i < s.retention → s'.cells[i]? = s.cells[i]? :=
+  optimizeBody_retained_prefix_unchanged (optimize_ok h).2 (optimize_ok h).1 hvc
+
+theorem optimize_retained_roots_fixed {s s' : Store} {roots m : List Nat}
+    (h : Store.optimize s roots = .ok (s', m)) :
+    m.length = roots.length ∧ ∀ (k r : Nat), roots[k]? = some r → r < s.retention → m[k]? = some r :=
+  optimizeBody_retained_roots_fixed (optimize_ok h).2
 
 end Garnish.BasicOpt
